@@ -371,6 +371,20 @@ def evaluate(ctx, deep):
                     ctx.count(f"qr:{fam}", key=("qr", tuple(np.round(U, 12).ravel().tolist())), nontrivial=True)
                     eval_case(ctx, U, "qr", False, 0, fam)
 
+    # QR on reflections I - 2 v v^T with a uniform (and a random real) v: no zero entries, but a pivot of the elimination
+    # vanishes exactly / an eliminated entry has modulus one (rotations that are permutations or diagonal)
+    for n in range(2, (4 if deep else 3) + 1):
+        N = 2 ** n
+        for fam, v in (("reflection_uniform", np.ones(N) / np.sqrt(N)), ("reflection_real", None)):
+            if v is None:
+                v = ctx.rng.normal(size=N)
+                v /= np.linalg.norm(v)
+            U = (np.eye(N) - 2 * np.outer(v, v)).astype(complex)
+            if no_zero_entries(U):
+                for dt in ("real", "complex"):
+                    ctx.count(f"qr:{fam}:{dt}", key=("qr", fam, n, dt, tuple(np.round(U[0], 12).tolist())), nontrivial=True)
+                    eval_case(ctx, U, "qr", False, 0, fam, dtype=dt)
+
     # QR beyond the sweep above: one Haar matrix at n = 4 (quick) / n = 4, 5 (deep) - sizes where the row / column bit patterns
     # differ in up to four, five positions
     for n in ((4, 5) if deep else (4,)):
